@@ -59,6 +59,12 @@ def scenarios(ctx):
         out.append({"idx": i, "group": group, "git": False, "n": 2, "ident": long_ident, "level": "global",
                     "default_hostport": False})
         i += 1
+    # one certificate, several identifiers: one responder address for all (TCP) / one socket or directory each
+    for group in ("tls-alpn-01-tacd-tcp", "tls-alpn-01-tacd-unix", "http-01-echo"):
+        out.append({"idx": i, "group": group, "git": False, "n": 2, "ident": "example.org", "level": "global",
+                    "default_hostport": False, "more_idents": ["www.example.org", "mail.example.org"]})
+        i += 1
+    # documented defaults of TACD_HOST (= identifier) and TACD_PORT (= 5001): run one after the other
     out.append({"idx": i, "group": "tls-alpn-01-tacd-tcp", "git": False, "n": 2, "ident": "localhost",
                 "level": "global", "default_hostport": True})
     return out
@@ -105,7 +111,10 @@ def run_one(sc, root, helper, tacd_dir):
             obs["expected"] = "0420" + digest
             hs = None
             for _ in range(240):   # tacd daemonises and binds after its start hook returned (slow machines: up to ~12 s)
-                hs = tacdrun.handshake(listen, [tacdrun.ACME_ALPN], server_name=authz["identifier"]["value"], timeout=2.0)
+                # the unix group has one socket per identifier
+                at = listen if sc["group"] != "tls-alpn-01-tacd-unix" else \
+                    "unix:" + os.path.join(sock_root, "tacd_%s.sock" % authz["identifier"]["value"])
+                hs = tacdrun.handshake(at, [tacdrun.ACME_ALPN], server_name=authz["identifier"]["value"], timeout=2.0)
                 if hs.get("ok"):
                     break
                 time.sleep(0.05)
@@ -119,7 +128,7 @@ def run_one(sc, root, helper, tacd_dir):
                 obs["cert"] = {k: pc.get(k) for k in ("dns", "acme_ext", "self_signed")}
             else:
                 obs["error"] = (hs or {}).get("error")
-        issuances.append({"challenge": obs})
+        issuances.append({"challenge": obs, "t": time.monotonic_ns()})
         return {"ok": obs["validated"], "obs": obs}
 
     ca = mockca.MockCA(helper, opts={"valid_secs": 10 * 86400, "challenge_types": [chall]})
@@ -133,7 +142,10 @@ def run_one(sc, root, helper, tacd_dir):
                      "status={{ status }}"]}
     hooks = [sc["group"]] + (["git"] if sc["git"] else []) + ["rec-post"]
     ident_tbl = {"dns": ident, "challenge": chall}
-    cert = {"endpoint": "ep1", "account": "acc1", "identifiers": [ident_tbl], "hooks": hooks,
+    # further identifiers of the same certificate (same responder address in the TCP group: each one's
+    # responder must be gone before the next one's starts)
+    more = [{"dns": x, "challenge": chall} for x in sc.get("more_idents", [])]
+    cert = {"endpoint": "ep1", "account": "acc1", "identifiers": [ident_tbl] + more, "hooks": hooks,
             "key_type": "ecdsa_p256", "name": "crt"}
     g = {"accounts_directory": os.path.join(d, "accounts"), "certificates_directory": os.path.join(d, "certs")}
     if sc["level"] == "global":
@@ -172,9 +184,20 @@ def run_one(sc, root, helper, tacd_dir):
             left.append("socket " + name)
         if sc["group"] != "http-01-echo" and po.get("connect", {}).get(listen):
             left.append("responder still answering at " + listen)
-        obs = issuances[k] if k < len(issuances) else {"challenge": {"expected": "", "proof_file_exists": False,
-                                                                     "proof_file_content": "", "proof_file_world_readable": False,
-                                                                     "responder_reachable": False, "validated": False}}
+        empty = {"challenge": {"expected": "", "proof_file_exists": False, "proof_file_content": "",
+                               "proof_file_world_readable": False, "responder_reachable": False, "validated": False}}
+        if sc.get("more_idents"):
+            # several validations per issuance: the ones made before this post-operation record and after
+            # the previous one; the issuance's challenge observation is the first that failed, else the last,
+            # and it only counts as validated when every identifier was validated
+            t0 = posts[k - 1]["t"] if k else 0
+            mine = [x for x in issuances if t0 <= x["t"] < po["t"]]
+            bad = [x for x in mine if not x["challenge"]["validated"]]
+            obs = (bad or mine or [empty])[0 if bad else -1]
+            if not bad and len(mine) < 1 + len(sc["more_idents"]):
+                obs = {"challenge": dict(obs["challenge"], validated=False)}
+        else:
+            obs = issuances[k] if k < len(issuances) else empty
         res["issuances"].append({"challenge": {kk: vv for kk, vv in obs["challenge"].items()
                                                if kk not in ("cert", "error")},
                                  "leftovers": left, "is_success": flow.hook_args(po).get("is_success"),
